@@ -484,8 +484,27 @@ func c14Run(t *testing.T, tape *simrt.Tape, o simwork.Opts) *simwork.Result {
 			for k, v := range w.Header() {
 				wantHdr[k] = append([]string(nil), v...)
 			}
+			// a zero-length write is a write like any other: as the first one it
+			// commits status 200 and the headers set so far, on a failed writer it
+			// reports the failure
+			zeroWrite := func(label string, den int) bool {
+				if !tape.Bool(1, den, label) {
+					return false
+				}
+				var p []byte
+				if tape.Bool(1, 2, label+".empty") {
+					p = []byte{}
+				}
+				wn, err := w.Write(p)
+				handlerLog = append(handlerLog, ioRec{N: wn, Err: err})
+				res.Probes["zero-length-write"]++
+				return true
+			}
 			if tape.Bool(1, 2, "explicit-status") {
 				w.WriteHeader(200)
+			} else if zeroWrite("zero-first", 6) && tape.Bool(1, 2, "late-status") {
+				// too late: the response has started
+				w.WriteHeader(http.StatusTeapot)
 			}
 			data := body
 			if !failing {
@@ -521,12 +540,14 @@ func c14Run(t *testing.T, tape *simrt.Tape, o simwork.Opts) *simwork.Result {
 				handlerLog = append(handlerLog, ioRec{N: wn, Err: err, Data: string(data[pos : pos+n])})
 				cs.Chunks = append(cs.Chunks, n)
 				if err != nil {
+					zeroWrite("zero-after-failure", 4)
 					break
 				}
 				pos += n
 				if f, ok := w.(http.Flusher); ok && tape.Bool(1, 4, "flush") {
 					f.Flush()
 				}
+				zeroWrite("zero-between", 12)
 			}
 			w.Header().Set("X-Declared", "d1")
 			w.Header().Set(http.TrailerPrefix+"X-Late", "l1")
